@@ -381,6 +381,11 @@ func (h *histogram) RecordValue(value float64) {
 	idx := sort.Search(len(h.buckets), func(i int) bool {
 		return h.buckets[i].valueUpperBound >= value
 	})
+	if idx >= len(h.samples) {
+		// n.b. +Inf and NaN compare false against every bound, including the
+		//      terminal math.MaxFloat64 bucket: count them in the last bucket.
+		idx = len(h.samples) - 1
+	}
 	h.samples[idx].counter.Inc(1)
 }
 
